@@ -6,31 +6,6 @@ From XV Require Import core.Value model.Hash model.Cache model.Spec
   proofs.Sort_lemmas proofs.Hash_lemmas proofs.Cache_lemmas.
 Import ListNotations.
 
-(* ---- induction on values ------------------------------------------------------------ *)
-Section ValueInd.
-  Variable P : value -> Prop.
-  Hypothesis HNone : P VNone.
-  Hypothesis HInt : forall z, P (VInt z).
-  Hypothesis HBool : forall b, P (VBool b).
-  Hypothesis HFloat : forall b, P (VFloat b).
-  Hypothesis HStr : forall s, P (VStr s).
-  Hypothesis HPath : forall s, P (VPath s).
-  Hypothesis HEnum : forall q, P (VEnum q).
-  Hypothesis HList : forall l, Forall P l -> P (VList l).
-  Hypothesis HDict : forall l, Forall (fun kv => P (snd kv)) l -> P (VDict l).
-  Hypothesis HRef : forall n, P (VRef n).
-
-  Fixpoint value_ind2 (v : value) : P v :=
-    match v with
-    | VNone => HNone | VInt z => HInt z | VBool b => HBool b | VFloat b => HFloat b
-    | VStr s => HStr s | VPath s => HPath s | VEnum q => HEnum q
-    | VList l => HList l ((fix go (l : list value) : Forall P l :=
-                            match l with [] => Forall_nil _ | x :: l' => Forall_cons _ (value_ind2 x) (go l') end) l)
-    | VDict l => HDict l ((fix go (l : list (bytes * value)) : Forall (fun kv => P (snd kv)) l :=
-                            match l with [] => Forall_nil _ | x :: l' => Forall_cons _ (value_ind2 (snd x)) (go l') end) l)
-    | VRef n => HRef n
-    end.
-End ValueInd.
 
 (* ---- sorting commutes with a key-preserving map --------------------------------------- *)
 Lemma insert_by_map {A B} (ka : A -> bytes) (kb : B -> bytes) (f : A -> B) :
